@@ -392,11 +392,15 @@ def compose(chk, repo):
                    mode="stmt"))
     chk.ob("R18.2", sym, "positions and window bases come from one "
            "append_fmmu call", ok, f, "one logical address per group")
-    calls = [s for s in walk_no_nested(f) if isinstance(s, ast.Assign)]
-    order = [unparse(s.targets[0]) for s in calls]
-    ok = "terminals" in order and any("in_pos" in o for o in order) and \
-        order.index("terminals") < [i for i, o in enumerate(order)
-                                    if "in_pos" in o][0]
+    # every terminal's allocate() call comes before the append_fmmu call
+    # (which sizes the FMMU datagrams by the accumulators they advance)
+    cfg_ = CFG(f)
+    allocs = [n for n in cfg_.nodes if n.expr is not None and find(
+        "$t.allocate(self.packet, $rw)", n.expr)]
+    fm = [n for n in cfg_.nodes if n.expr is not None and find(
+        "self.packet.append_fmmu($a)", n.expr)]
+    ok = bool(allocs) and len(fm) == 1 and not any(
+        a in cfg_.reachable(fm[0]) for a in allocs)
     chk.ob("R18.2", sym, "terminals are allocated before the FMMU datagrams "
            "are sized", ok, f, "append_fmmu sees the final accumulators")
     # (comprehension or explicit loops: the expressions are looked for
